@@ -50,6 +50,8 @@ PINNED_TOP = {
         "data_grouped_by_sensitive_feature", "n", "n_positive", "n_negative", "y_values", "sensitive_feature_value", "group",
         "roc_convex_hull", "counts", "objective_values", "i_best_EO", "interpolation_dict", "roc_result", "p_ignore",
         "difference_from_best_predictor_for_sensitive_feature", "vertical_distance_from_diagonal"],
+    "ThresholdOptimizer.predict": [],
+    "ThresholdOptimizer._pmf_predict": [],
     "_reformat_and_group_data": ["data_dict", "sensitive_feature_name"],
     "_reformat_data_into_dict": ["attribute_column", "a"],
 }
